@@ -36,7 +36,9 @@ PROPS = {
         K('lemma_score_gt_neg1', 'C11.kani.lemma.scores_are_finite_and_above_the_start_score', kind='lemma'),
     ]),
     'C05': dict(units=['core_all', 'events', 'route'], level='proof'),
-    'C09': dict(units=['core_all', 'events', 'route', 'reg'], level='proof'),
+    'C09': dict(units=['core_all', 'events', 'route', 'reg'], level='proof', kani=[
+        K('decoders_total_and_layouts_le24', 'C09.kani.decoders_never_panic_on_short_frames', kind='bounded', bound='every byte string of length 0..=24'),
+    ]),
     'C10': dict(units=['core_all', 'events', 'route', 'hk'], level='proof'),
     'C06': dict(units=['core_all', 'hk'], level='proof', kani=[
         K('window_recovery_contract', 'C06.kani.time_based_recovery_in_range_never_decreases_at_most_120_fast_recovery_left_at_12000',
@@ -66,12 +68,15 @@ PROPS = {
         K('cc_tick_growth_bounded_at_floor_after_bootstrap', 'C16.kani.tick.growth_bounded_at_floor_after_bootstrap'),
     ]),
     'C17': dict(units=['cls'], level='proof'),
+    'C18': dict(units=['ctl'], level='proof',
+                not_covered=['handle_method (method-name match, parameter extraction, -32601/-32602 mapping): stub', 'dispatch_async / socket entry point equivalence', 'concurrent setters and snapshot readers (atomics sequentialised)', 'JSON serialisation (Response::to_json)']),
     'C19': dict(units=['reload', 'events'], level='proof'),
     'C15': dict(
         kani=[K('reg_packets_layout', 'C15.kani.reg1_reg2_are_258_bytes_type_plus_id'),
               K('keepalive_roundtrip', 'C15.kani.keepalive_decodes_back', note='8-iteration loop fully unwound (unwind 9, unwinding assertions on)'),
               K('keepalive_ext_roundtrip', 'C15.kani.extended_keepalive_decodes_back', note='8-iteration loop fully unwound'),
-              K('ack_packet_roundtrip_le4', 'C15.kani.srtla_ack_decodes_back', kind='bounded', bound='1..=4 acknowledged numbers')] + STUB_HARNESSES,
+              K('ack_packet_roundtrip_le4', 'C15.kani.srtla_ack_decodes_back', kind='bounded', bound='1..=4 acknowledged numbers'),
+              K('decoders_total_and_layouts_le24', 'C15.kani.decoders_total_and_fixed_offset_layouts_on_short_frames', kind='bounded', bound='every byte string of length 0..=24 (structure-independent cross-check on the compiled code)')] + STUB_HARNESSES,
         units=['proto'],
         level='proof',
         trusted=['u16/u32/i32::from_be_bytes specified as shift-or of the bytes (stub, Kani-validated)'],
